@@ -424,7 +424,21 @@ def generate_tables():
     def keys_of(mod, cls):
         c = getattr(importlib.import_module(mod), cls)
         t = Translator(c)
-        node, _ = t.func_ast('_get_restart_args')
+        node, path = t.func_ast('_get_restart_args')
+        # the function must have exactly the known shape: everything it returns is in the literal dict(s) -
+        # a filter, a default or a conditional on top of them would change which options survive a restart
+        body = [b for b in node.body if not (isinstance(b, ast.Expr) and isinstance(getattr(b, 'value', None), ast.Constant))]
+        txts = [ast.unparse(b) for b in body]
+        if cls == 'Worker':
+            ok = (len(body) == 1 and isinstance(body[0], ast.Return) and isinstance(body[0].value, ast.Tuple) and len(body[0].value.elts) == 2
+                  and isinstance(body[0].value.elts[0], ast.List) and isinstance(body[0].value.elts[1], ast.Dict)
+                  and all(isinstance(k, ast.Constant) for k in body[0].value.elts[1].keys))
+        else:
+            ok = (len(body) == 3 and txts[0] == 'args, kwargs = super()._get_restart_args()' and txts[2] == 'return (args, kwargs)'
+                  and isinstance(body[1], ast.Expr) and isinstance(body[1].value, ast.Call) and ast.unparse(body[1].value.func) == 'kwargs.update'
+                  and len(body[1].value.args) == 1 and isinstance(body[1].value.args[0], ast.Dict) and not body[1].value.keywords)
+        if not ok:
+            raise Untranslatable(f'{path.name}:{node.lineno}: {cls}._get_restart_args does not have the known shape: {txts}')
         keys = []
         for n in ast.walk(node):
             if isinstance(n, ast.Dict):
@@ -765,6 +779,45 @@ def regenerate_forward():
     return errors, changed
 
 
+# ======================================================================================= T-next
+def generate_consumer():
+    """PersistentWorker.next_result: which conditions select the non-blocking read -> Gen/Consumer.lean"""
+    sys.path.insert(0, str(REPO))
+    out = ['import PwVerif.Model.Consumer', '/-! GENERATED by harness/translate.py (T-next) from /repo - do not edit. -/', 'namespace PwVerif.Gen', 'open PwVerif.Consumer', '']
+    errors = []
+    try:
+        c = getattr(importlib.import_module('pyworkers.persistent'), 'PersistentWorker')
+        t = Translator(c)
+        fn, path = t.func_ast('next_result')
+        body = [b for b in fn.body if not (isinstance(b, ast.Expr) and isinstance(getattr(b, 'value', None), ast.Constant))]
+        txts = [ast.unparse(b) for b in body]
+        first = body[0]
+        if not (isinstance(first, ast.If) and [ast.unparse(x) for x in first.body] == ['ret = self.results_endpoint.get_nowait()']
+                and [ast.unparse(x) for x in first.orelse] == ['ret = self.results_endpoint.get(block=block, timeout=timeout)']
+                and txts[1:] == ['unused_counter, flag, value, unused_wid = ret', 'if not flag:\n    raise queue.Empty', 'return value']):
+            raise Untranslatable(f'{path.name}:{fn.lineno}: next_result does not have the known shape: {txts}')
+        test = first.test
+        terms = [ast.unparse(v) for v in test.values] if isinstance(test, ast.BoolOp) and isinstance(test.op, ast.Or) else [ast.unparse(test)]
+        known = {'not self.is_alive()': 'dead', 'self._closed': 'closed'}
+        for x in terms:
+            if x not in known:
+                raise Untranslatable(f'{path.name}:{first.lineno}: unknown condition `{x}` selects the non-blocking read')
+        flags = {known[x] for x in terms}
+        out.append(f'/-- `PersistentWorker.next_result` ({path.name}:{fn.lineno}) -/')
+        out.append('def consumerCfg : Cfg := { nowaitWhenDead := %s, nowaitWhenClosed := %s }\n' % (str('dead' in flags).lower(), str('closed' in flags).lower()))
+    except Exception as e:
+        errors.append(f'consumer: {type(e).__name__}: {e}')
+        out.append('def consumerCfg : Cfg := ⟨false, true⟩\n')
+    out.append('end PwVerif.Gen')
+    return '\n'.join(out) + '\n', errors
+
+
+def regenerate_consumer():
+    text, errors = generate_consumer()
+    changed = write_if_changed(LEAN / 'PwVerif' / 'Gen' / 'Consumer.lean', text)
+    return errors, changed
+
+
 # ======================================================================================= T-reset
 def generate_poolreset():
     """Pool.run: which bookkeeping fields are re-initialised before the nested closures -> Gen/PoolReset.lean"""
@@ -824,9 +877,11 @@ if __name__ == '__main__':
     print('ShutdownPaths.lean', 'rewritten' if changed6 else 'unchanged')
     errs7, changed7 = regenerate_forward()
     print('Forward.lean', 'rewritten' if changed7 else 'unchanged')
+    errs9, changed9 = regenerate_consumer()
+    print('Consumer.lean', 'rewritten' if changed9 else 'unchanged')
     errs8, changed8 = regenerate_poolreset()
     print('PoolReset.lean', 'rewritten' if changed8 else 'unchanged')
-    errs2 = errs2 + errs3 + errs4 + errs5 + errs6 + errs7 + errs8
+    errs2 = errs2 + errs3 + errs4 + errs5 + errs6 + errs7 + errs8 + errs9
     for e in errs + errs2:
         print('UNTRANSLATABLE', e)
     sys.exit(1 if errs or errs2 else 0)
